@@ -553,6 +553,7 @@ def impl(case):
         # a raising call (e.g. operands outside the documented domain) is not judged by C19 except that
         # a pure operation must still leave its operands alone
         return {'error': err, 'changed': changed, 'shares': False, 'followup_changed': False, 'n_operands': len(operands), 'result_kind': 'raised'}
+    self_alias = False
     if inplace:
         # result of an in-place algorithm is a number (or self): aliasing is judged on the non-target operands
         tgt = 1 if op.startswith(('tdvp', 'dmrg')) else 0
@@ -565,6 +566,14 @@ def impl(case):
     elif isinstance(res, (ptn.MPS, ptn.MPO, ptn.OpGraph)):
         # the sharing clause of the property speaks about returned MPS / MPO / operator graphs
         sh = shares(res, operands)
+        # the tensors of one returned MPS / MPO must not be views of each other either: an in-place edit of one site tensor
+        # (a follow-up mutation the property quantifies over) would silently edit another site
+        if isinstance(res, (ptn.MPS, ptn.MPO)):
+            arrs = [a for a in list(res.A) + list(res.qD) + [res.qd] if isinstance(a, np.ndarray) and a.size]
+            for i in range(len(arrs)):
+                for j in range(i + 1, len(arrs)):
+                    if np.shares_memory(arrs[i], arrs[j]):
+                        self_alias = True
         fu_before = [digest(o) for o in operands]
         followups(res, rs)
         fu_changed = [digest(o) for o in operands] != fu_before
@@ -574,7 +583,8 @@ def impl(case):
         sh = False
         fu_changed = False
         kind = 'array-view' if shares(res, operands) else 'value'
-    return {'changed': changed, 'shares': bool(sh), 'followup_changed': bool(fu_changed), 'n_operands': len(operands), 'result_kind': kind}
+    return {'changed': changed, 'shares': bool(sh), 'followup_changed': bool(fu_changed), 'n_operands': len(operands), 'result_kind': kind,
+            'self_alias': bool(self_alias)}
 
 
 def _kind(op):
@@ -612,6 +622,8 @@ def prop(case, r):
         msgs.append('%s: result shares memory/identity with an operand' % case['op'])
     if r['followup_changed']:
         msgs.append('%s: in-place mutation of the result altered an operand' % case['op'])
+    if r.get('self_alias'):
+        msgs.append('%s: two tensors of the returned object share memory (an in-place edit of one site edits another)' % case['op'])
     return msgs
 
 
